@@ -347,6 +347,68 @@ def rule_roundtrip(repo, rule='C02.R15'):
     rr.require_floor(15)
     return rr
 
+def rule_user_values(repo, rule='C02.R16'):
+    """The encoder walk folded on values as a user writes them (not only as the decoder hands them out): on every template of the
+    family one value at a time is replaced - a character value by a shorter text, by the empty text, by a bytes value, by None; a
+    numeric / code / flag value by None - and the field written for it must be that very value (padding is the bit writer's business,
+    C19) or, for None and only for None, all ones of the width; every other field must stay what it was."""
+    from sa.rules import pipeline as P
+    rr = RuleResult(rule, 'values as a user writes them: a short or empty text reaches the writer as itself, only None becomes all ones of the width, neighbours untouched')
+    n = 0
+    for name in sorted(P.templates()):
+        members, script = P.templates()[name]
+        o = P.run_template(repo, name)
+        if not o.decode.ok or len(o.reads) != len(o.vals) or len(o.descs) != len(o.vals):
+            continue
+        r0, st0, wr0 = P.encode(repo, members, o.vals)
+        if not r0.ok:
+            continue                   # reported by the round-trip rule
+        base = [(m, tuple(a)) for m, a in wr0.log]
+        if len(base) != len(o.vals):
+            continue
+        for i, ((m, a), v, d) in enumerate(zip(o.reads, o.vals, o.descs)):
+            did = d.fields.get('id') if isinstance(d, Obj) else None
+            if m == 'read_bytes':
+                w = a[0]
+                variants = [('a shorter text', 'A' if w > 1 else ''), ('the empty text', ''), ('empty bytes', b''), ('None', None), ('a full-width text', 'Z' * w)]
+            elif m == 'read_uint_or_none' and isinstance(did, int) and did // 1000 != 31 and v is not None:
+                variants = [('None', None)]
+            else:
+                continue
+            for what, nv in variants:
+                vals = list(o.vals)
+                vals[i] = nv
+                r, st, wr = P.encode(repo, members, vals)
+                n += 1
+                key = 'user-values:%s' % ('text' if m == 'read_bytes' else 'numeric')
+                where = 'pybufrkit/encoder.py'
+                if not r.ok:
+                    rr.fail(key + ':refused', where, 'template "%s": with %s for value %d (%s) the encoder walk ends in %s' % (name, what, i, did, r.exc.cls),
+                            witness={'template': name, 'index': i, 'value': repr(nv)})
+                    continue
+                got = [(mm, tuple(aa)) for mm, aa in wr.log]
+                if len(got) != len(base) or any(g != b for k, (g, b) in enumerate(zip(got, base)) if k != i):
+                    rr.fail(key + ':neighbours', where, 'template "%s": with %s for value %d (%s) other fields change as well' % (name, what, i, did),
+                            witness={'template': name, 'index': i, 'value': repr(nv)})
+                    continue
+                gm, ga = got[i]
+                w = base[i][1][1]
+                if nv is None:
+                    ok = ga[1] == w and ga[0] in ((2 ** w - 1,) if m != 'read_bytes' else ('\xff' * w, b'\xff' * w))
+                    want = 'all ones of the width'
+                else:
+                    ok = ga[1] == w and ga[0] == nv and type(ga[0]) is type(nv)
+                    want = 'that value (%r), padded by the bit writer' % (nv,)
+                if gm != base[i][0] or not ok:
+                    rr.fail(key + ':written', where, 'template "%s": with %s for value %d (%s, %d %s wide) the encoder hands %s%r to the bit writer; expected %s' % (
+                        name, what, i, did, w, 'octets' if m == 'read_bytes' else 'bits', gm, ga, want), witness={'template': name, 'index': i, 'value': repr(nv)})
+    rr.instance('%d single-value replacements over the template family' % n)
+    rr.extra = {'replacements': n}
+    if n < 30:
+        raise AnalysisError('C02.R16: only %d replacements could be set up' % n)
+    rr.require_floor(1)
+    return rr
+
 
 def _short(v):
     s = repr(v)
@@ -394,6 +456,10 @@ def run(repo, check):
     _share(check, repo, _c05.rule_state_mode, 'C02.R14', 'the data section is written in the layout the header declares, whatever the number of subsets (shared with C05.R8)',
            args=('C02.R14',), keep=lambda f: 'Encoder' in f.key)
     check.run_rule(rule_roundtrip, repo)
+    check.run_rule(rule_user_values, repo)
+    from sa.rules import c01 as _c01b
+    _share(check, repo, _c01b.rule_reference, 'C02.R17', 'the fields the decoder reads are the ones an independent FM-94 reading of the template dictates (shared with C01.R14); with '
+           'R15 - the encoder writes exactly what the decoder reads - the encoder writes the FM-94 fields', args=('C02.R17',))
     check.assumptions = ['bitstring writes an n-bit unsigned field MSB first and refuses values that do not fit (trusted base)',
                          'byte identity with an independent encoder is a runtime fact and is not decided; the rules decide that the encoder '
                          'and the decoder agree on every field sequence and that the arithmetic is the FM-94 one']
